@@ -828,7 +828,7 @@ func (as *AbacoSource) distributePackets(allpackets []*packets.Packet, now time.
 }
 
 // Sample determines key data facts by sampling some initial data.
-func (as *AbacoSource) Sample() error {
+func (as *AbacoSource) Sample() (err error) {
 	if len(as.producers) <= 0 {
 		return fmt.Errorf("no Abaco ring buffers or UDP receivers are active")
 	}
@@ -837,6 +837,7 @@ func (as *AbacoSource) Sample() error {
 	type SampleResult struct {
 		allpackets []*packets.Packet
 		err        error
+		started    PacketProducer // non-nil if the producer was started (ring opened, port bound)
 	}
 	sampleResults := make(chan SampleResult)
 	timeout := 2000 * time.Millisecond
@@ -848,15 +849,30 @@ func (as *AbacoSource) Sample() error {
 				return
 			}
 			p, err := pp.samplePackets(timeout)
-			sampleResults <- SampleResult{allpackets: p, err: err}
+			sampleResults <- SampleResult{allpackets: p, err: err, started: pp}
 		}(pp)
 	}
+	allResults := make([]SampleResult, 0, len(as.producers))
+	for range as.producers {
+		allResults = append(allResults, <-sampleResults)
+	}
+	// Sampling starts the packet producers (opens ring buffers, binds UDP ports). If the
+	// source cannot be started after all, release them again: otherwise every later
+	// attempt to start fails with "address already in use".
+	defer func() {
+		if err != nil {
+			for _, r := range allResults {
+				if r.started != nil {
+					r.started.stop()
+				}
+			}
+		}
+	}()
 
 	// Now sort the packets received into the right AbacoGroups
 	as.nchan = 0
 	as.groups = make(map[GroupIndex]*AbacoGroup)
-	for range as.producers {
-		results := <-sampleResults
+	for _, results := range allResults {
 		now := time.Now()
 		if results.err != nil {
 			return results.err
@@ -873,6 +889,10 @@ func (as *AbacoSource) Sample() error {
 			}
 		}
 		as.distributePackets(results.allpackets, now)
+	}
+
+	if as.nchan == 0 {
+		return fmt.Errorf("no Abaco data packets arrived while sampling; is the hardware sending?")
 	}
 
 	// Verify that no channel # appears in 2 groups.
